@@ -326,4 +326,119 @@ theorem dersStep_high (ndu : ℕ → ℕ → K) (p r k : ℕ) (st : DState K) (h
   rw [hcnt]
   simp [dersMid]
 
+
+/-! ## more facts used by the property theorems -/
+
+theorem getD_map_range (f : ℕ → K) (n i : ℕ) (h : i < n) :
+    ((List.range n).map f).getD i 0 = f i := by
+  simp [List.getD_eq_getElem?_getD, List.getElem?_map, List.getElem?_range, h]
+
+/-- all denominators `NDU[j, r] = right[r] + left[j-r-1]` (`r < j ≤ s`) are positive: they span
+the non-empty knot span `[t s, t (s+1)]` — this is why the C code may divide without a guard. -/
+theorem ndu_den_pos (t : ℕ → K) (s N : ℕ) (u : K)
+    (hmono : ∀ i j, i ≤ j → j < N → t i ≤ t j) (hspan : t s < t (s + 1))
+    (j r : ℕ) (hr : r < j) (hj : j ≤ s) (hN : s + j < N) :
+    0 < rightK t s u r + leftK t s u (j - r - 1) := by
+  rw [ndu_den]
+  have ha : t (s - (j - r - 1)) ≤ t s := hmono _ _ (by omega) (by omega)
+  have hb : t (s + 1) ≤ t (s + r + 1) := hmono _ _ (by omega) (by omega)
+  exact sub_pos.mpr (lt_of_le_of_lt ha (lt_of_lt_of_le hspan hb))
+
+/-- value of the last active function at the right end of an open knot vector is 1 -/
+theorem coxS_right_end (t : ℕ → K) (s : ℕ) (hspan : t s < t (s + 1)) :
+    ∀ p, (∀ k, k ≤ p → t (s + 1 + k) = t (s + 1)) → coxS t s (t (s + 1)) p s = 1 := by
+  intro p
+  induction p with
+  | zero => intro _; simp [coxS]
+  | succ p ih =>
+    intro h
+    have h1 := ih (fun k hk => h k (by omega))
+    have hz : coxS t s (t (s + 1)) p (s + 1) = 0 := coxS_support t s _ p _ (by omega)
+    have e : t (s + p + 1) = t (s + 1) := by
+      have := h p (by omega)
+      rwa [show s + 1 + p = s + p + 1 by omega] at this
+    have hne : t (s + 1) - t s ≠ 0 := ne_of_gt (sub_pos.mpr hspan)
+    simp [coxS, h1, hz, e, div_self hne]
+
+/-- the `k = 1` pass of the derivative loop for basis function `r`, in terms of the table -/
+theorem dersStep_one (ndu : ℕ → ℕ → K) (p r : ℕ) (st : DState K) (hr : r ≤ p) (hp : 1 ≤ p)
+    (ha : st.a1.getD 0 0 = 1) (hf : st.fac = p) :
+    (dersStep ndu p r 1 st).2 =
+      ((if 1 ≤ r then 1 / ndu p (r - 1) * ndu (r - 1) (p - 1) else 0)
+        + (if r + 1 ≤ p then -1 / ndu p r * ndu r (p - 1) else 0)) * (p : K) := by
+  unfold dersStep
+  have hj1 : ((r : ℤ) - ((1 : ℕ) : ℤ) ≥ -1) := by omega
+  have hj2 : ((r : ℤ) - 1 ≤ (p : ℤ) - ((1 : ℕ) : ℤ)) := by omega
+  have hcnt : ((((1 : ℕ) : ℤ) - 1) + 1 - 1).toNat = 0 := by simp
+  have e1 : ((p : ℤ) - ((1 : ℕ) : ℤ) + 1).toNat = p := by omega
+  have e2 : ((r : ℤ) - ((1 : ℕ) : ℤ)).toNat = r - 1 := by omega
+  have e3 : ((p : ℤ) - ((1 : ℕ) : ℤ)).toNat = p - 1 := by omega
+  simp only [hj1, hj2, if_true, hcnt, dersMid, e1, e2, e3, ha, hf, Nat.sub_self]
+  have hc : (((p : ℤ)) : K) = (p : K) := Int.cast_natCast p
+  by_cases h1 : r ≥ 1
+  · by_cases h2 : (r : ℤ) ≤ (p : ℤ) - ((1 : ℕ) : ℤ)
+    · have h2' : r + 1 ≤ p := by omega
+      have h1' : 1 ≤ r := h1
+      simp only [h1, h2, h1', h2', if_true, hc]
+    · have h2' : ¬ (r + 1 ≤ p) := by omega
+      have h1' : 1 ≤ r := h1
+      simp only [h1, h2, h1', h2', if_true, if_false, hc, add_zero]
+  · by_cases h2 : (r : ℤ) ≤ (p : ℤ) - ((1 : ℕ) : ℤ)
+    · have h2' : r + 1 ≤ p := by omega
+      have h1' : ¬ (1 ≤ r) := h1
+      simp only [h1, h2, h1', h2', if_true, if_false, hc, zero_add]
+    · omega
+
+/-- **`k = 1` row of A2.3 = first derivative by the derivative recursion** (step level) -/
+theorem ders1_eq (t : ℕ → K) (j0 q : ℕ) (u : K) (r : ℕ) (hr : r ≤ q + 1) (st : DState K)
+    (ha : st.a1.getD 0 0 = 1) (hf : st.fac = ((q + 1 : ℕ) : ℤ)) :
+    (dersStep (nduAt (nduTable (leftK t (j0 + q + 1) u) (rightK t (j0 + q + 1) u) (q + 1)).reverse.toArray
+        (leftK t (j0 + q + 1) u) (rightK t (j0 + q + 1) u)) (q + 1) r 1 st).2
+      = dcoxS t (j0 + q + 1) u 1 (q + 1) (j0 + r) := by
+  rw [dersStep_one _ (q + 1) r st hr (by omega) ha hf]
+  simp only [dcoxS, Nat.add_sub_cancel]
+  have hcol : ∀ i, i ≤ q →
+      nduAt (nduTable (leftK t (j0 + q + 1) u) (rightK t (j0 + q + 1) u) (q + 1)).reverse.toArray
+        (leftK t (j0 + q + 1) u) (rightK t (j0 + q + 1) u) i q = coxS t (j0 + q + 1) u q (j0 + 1 + i) := by
+    intro i hi
+    rw [nduAt_upper _ _ _ _ _ hi (by omega), nduCol_eq t _ u q (by omega), getD_map_range _ _ _ (by omega)]
+    congr 1; omega
+  by_cases h1 : 1 ≤ r
+  · by_cases h2 : r + 1 ≤ q + 1
+    · simp only [h1, h2, if_true]
+      rw [nduAt_lower _ _ _ _ _ (show r - 1 < q + 1 by omega), nduAt_lower _ _ _ _ _ (show r < q + 1 by omega),
+        hcol (r - 1) (by omega), hcol r (by omega), ndu_den, ndu_den]
+      have a1 : j0 + q + 1 + (r - 1) + 1 = j0 + r + q + 1 := by omega
+      have a2 : j0 + q + 1 - (q + 1 - (r - 1) - 1) = j0 + r := by omega
+      have a3 : j0 + 1 + (r - 1) = j0 + r := by omega
+      have a4 : j0 + q + 1 + r + 1 = j0 + r + q + 2 := by omega
+      have a5 : j0 + q + 1 - (q + 1 - r - 1) = j0 + r + 1 := by omega
+      have a6 : j0 + 1 + r = j0 + r + 1 := by omega
+      rw [a1, a2, a3, a4, a5, a6]
+      push_cast
+      ring
+    · have hrq : r = q + 1 := by omega
+      subst hrq
+      simp only [h1, h2, if_true, if_false, add_zero]
+      have hz : coxS t (j0 + q + 1) u q (j0 + (q + 1) + 1) = 0 := coxS_support t _ u q _ (by omega)
+      rw [nduAt_lower _ _ _ _ _ (show q + 1 - 1 < q + 1 by omega), hcol (q + 1 - 1) (by omega), ndu_den, hz]
+      have a1 : j0 + q + 1 + (q + 1 - 1) + 1 = j0 + (q + 1) + q + 1 := by omega
+      have a2 : j0 + q + 1 - (q + 1 - (q + 1 - 1) - 1) = j0 + (q + 1) := by omega
+      have a3 : j0 + 1 + (q + 1 - 1) = j0 + (q + 1) := by omega
+      rw [a1, a2, a3]
+      push_cast
+      ring
+  · have hr0 : r = 0 := by omega
+    subst hr0
+    have h2 : 0 + 1 ≤ q + 1 := by omega
+    simp only [h1, h2, if_true, if_false, zero_add]
+    have hz : coxS t (j0 + q + 1) u q (j0 + 0) = 0 := coxS_support t _ u q _ (by omega)
+    rw [nduAt_lower _ _ _ _ _ (show 0 < q + 1 by omega), hcol 0 (by omega), ndu_den, hz]
+    have a4 : j0 + q + 1 + 0 + 1 = j0 + 0 + q + 2 := by omega
+    have a5 : j0 + q + 1 - (q + 1 - 0 - 1) = j0 + 0 + 1 := by omega
+    have a6 : j0 + 1 + 0 = j0 + 0 + 1 := by omega
+    rw [a4, a5, a6]
+    push_cast
+    ring
+
 end Pyiga.BSpline
